@@ -93,4 +93,10 @@ META = {
         note="Trusts the reference gate and the scripted peer (refcodec); quiescence of the bubble stands for 'the message has been processed'.",
         technique="runtime monitoring: handler-invocation log vs reference gate automaton over enumerated peer message sequences (synctest bubbles, race detector)",
     ),
+    "C12": dict(
+        text="Fault enumeration: the complete product of retransmission budgets, reply positions, reply kinds, reply delays and post-handshake CEA sequences up to length 3 (about 3 thousand scripts) is executed against the real client under a virtual clock, so timing facts (spacing, which retransmission window a reply falls into) are exact and not load dependent.",
+        design_ref="DESIGN.md section 4, C12",
+        note="Timestamps are taken at entry of the transport's Write on the bubble's virtual clock; the scripted peer is built on refcodec.",
+        technique="runtime monitoring under enumerated peer-fault scripts: transport write log (count, identity, spacing in virtual time), dial outcome, close log, handler log, goroutine-leak check at bubble end",
+    ),
 }
